@@ -19,12 +19,12 @@ import (
 const modulePath = "github.com/bluenviron/gohlslib/v2"
 
 type Engine struct {
-	root      string
-	fset      *token.FileSet
-	prog      *ssa.Program
-	pkgs      []*packages.Package
-	spkgs     map[string]*ssa.Package
-	contracts *Contracts
+	root         string
+	fset         *token.FileSet
+	prog         *ssa.Program
+	pkgs         []*packages.Package
+	spkgs        map[string]*ssa.Package
+	contracts    *Contracts
 	extraPrelude string
 
 	mu       sync.Mutex
@@ -481,6 +481,34 @@ func (e *Engine) guardedSVs(vc *VC, class string) []string {
 
 // ------------------------------------------------------------------ verification of one function
 
+var shapeEnsRe = regexp.MustCompile(`^result(\d*)\s+in\s+/(.*)/$`)
+
+// resolveLoopShapes: a loop-carried string that is only ever extended (ret += X) has the shape
+// entry (X1|X2|...)*; anything else is unknown.
+func (vc *VC) resolveLoopShapes() {
+	for id, entry := range vc.loopEntry {
+		var bodies []*Shape
+		ok := true
+		for _, b := range vc.loopBacks[id] {
+			x, good := stripRef(b, id)
+			if !good {
+				ok = false
+				break
+			}
+			bodies = append(bodies, x)
+		}
+		if !ok {
+			vc.loopShapes[id] = shAny()
+			continue
+		}
+		if len(bodies) == 0 {
+			vc.loopShapes[id] = entry
+			continue
+		}
+		vc.loopShapes[id] = shCat(entry, &Shape{K: "star", A: shAlt(bodies...)})
+	}
+}
+
 var callsRe = regexp.MustCompile(`(?:calls|callarg)\("([^"]+)"(?:\s*,\s*[^,)]+\s*,\s*(\d+))?`)
 
 func (e *Engine) verifyFunction(fc *FuncContract) (*VC, error) {
@@ -604,7 +632,29 @@ func (e *Engine) verifyFunction(fc *FuncContract) (*VC, error) {
 	exit, res := vc.execFunction(fr, st, args)
 	fr.specEnv = map[string]specVal{}
 	vc.bindResults(fr, fn, res)
+	vc.resolveLoopShapes()
+	for i, em := range fc.Emits {
+		if len(res) > 0 {
+			vc.emitsObligation(fmt.Sprint(vc.ordinal("emits")), res[0], em[0], em[1], fn.Pos())
+			if i < len(fc.EmitsProps) && len(fc.EmitsProps[i]) > 0 {
+				vc.obls[len(vc.obls)-1].Props = fc.EmitsProps[i]
+			}
+		}
+	}
 	for i, en := range fc.Ensures {
+		if m := shapeEnsRe.FindStringSubmatch(en); m != nil {
+			k := 0
+			if m[1] != "" {
+				fmt.Sscanf(m[1], "%d", &k)
+			}
+			if k < len(res) {
+				vc.shapeObligation(fmt.Sprint(i+1), "every string this function can return matches /"+truncStr(m[2], 200)+"/", res[k], m[2], fn.Pos())
+				if ps, ok := fc.ClausePropsEns[i]; ok {
+					vc.obls[len(vc.obls)-1].Props = ps
+				}
+			}
+			continue
+		}
 		t, err := vc.specBoolAt(fr, exit, vc.entry, en, nil)
 		if err != nil {
 			return vc, fmt.Errorf("ensures %d of %s: %v", i+1, fc.Key, err)
@@ -666,7 +716,6 @@ func (e *Engine) fnByShort(name string) *ssa.Function {
 	}
 	return nil
 }
-
 
 // frameSetup evaluates the modifies clause at entry: which state variables may be written wholly,
 // and which objects of the others.
@@ -818,7 +867,6 @@ func (vc *VC) assignCheckWhole(fr *Frame, st *State, sv string, pos token.Pos) {
 	vc.oblige(st, "frame", fmt.Sprintf("%s%s.whole.%d", fnTagDot(fr), sv, vc.ordinal("frame/"+fnTagDot(fr)+sv)),
 		"callee may modify "+sv+" of any object; the caller's modifies clause must allow that", "false", pos)
 }
-
 
 // extByShort finds a dependency function by its short name (for assumed contracts).
 func (e *Engine) extByShort(name string) *ssa.Function {
